@@ -43,6 +43,15 @@ def arg_strings(draw, max_size=10):
         return draw(st.sampled_from(TOKENS))
     if k == 3:
         return draw(st.sampled_from(TOKENS)) + draw(st.sampled_from(TOKENS))
+    if k == 4:
+        # long arguments (lines of the build file get wide) with a run of
+        # blanks or a token somewhere inside
+        mid = draw(st.one_of(
+            st.builds(lambda n, c: c * n, st.integers(2, 12),
+                      st.sampled_from([' ', '\t', '$', '\\', "'"])),
+            st.sampled_from(TOKENS)))
+        return 'x' * draw(st.integers(0, 90)) + mid + \
+            'y' * draw(st.integers(0, 40))
     return ''.join(draw(st.lists(_alpha, min_size=0, max_size=max_size)))
 
 
@@ -91,6 +100,13 @@ POSITIONS = [
     ('P9s', 'link_options-string', 'flags-var'),
     ('P10a', 'global_options-list', 'flags-var'),
     ('P10s', 'global_options-string', 'flags-var'),
+    ('P10x', 'global_options-shared-word', 'flags-var'),
+    ('P7x', 'compile_options-shared-word', 'flags-var'),
+    ('P7v', 'compile_options-multi-output', 'flags-var'),
+    ('P9v', 'link_options-multi-output', 'flags-var'),
+    ('P17y', 'generator-option-multi-output', 'flags-var'),
+    ('P17g', 'generator-global-option', 'flags-var'),
+    ('P15y', 'env-YFLAGS', 'flags-var'),
     ('P11a', 'global_link_options-list', 'flags-var'),
     ('P11s', 'global_link_options-string', 'flags-var'),
     ('P12v', 'define-value', 'flags-var'),
@@ -134,6 +150,10 @@ def render(src, v, shape):
         "global_options([{}], lang='c')".format(r('-DG10A=' + v['P10a'])),
         "global_options({}, lang='c')".format(
             r(strquote('-DG10S=' + v['P10s']))),
+        # the same word in a global and in a per-target list
+        "global_options(['-Xpreprocessor', {}], lang='c')".format(
+            r('-DG10X=' + v['P10x'])),
+        "global_options([{}], lang='yacc')".format(r('-DG17G=' + v['P17g'])),
         "global_link_options([{}])".format(r('-Wl,--g11a=' + v['P11a'])),
         "global_link_options({})".format(
             r(strquote('-Wl,--g11s=' + v['P11s']))),
@@ -143,10 +163,17 @@ def render(src, v, shape):
         "shl = shared_library('shl', ['shl.c'])",
         "vprog = executable('prog', ['main.c'], includes=[inc], "
         "libs=[slib, shl], "
-        "compile_options=[{}, {}, opts.define('D12', {})], "
-        "link_options=[{}, opts.lib_dir(libd)])".format(
+        "compile_options=[{}, {}, opts.define('D12', {}), '-Xpreprocessor', "
+        "{}], link_options=[{}, opts.lib_dir(libd)])".format(
             r('-DC7A=' + v['P7a']), r('-DC7B=' + v['P7b']), r(v['P12v']),
-            r('-Wl,--l9a=' + v['P9a'])),
+            r('-DC7X=' + v['P7x']), r('-Wl,--l9a=' + v['P9a'])),
+        # steps with several outputs: a versioned shared library and a
+        # grammar (source + header)
+        "vshl = shared_library('vshl', ['vshl.c'], version='1.2.3', "
+        "soversion='1', compile_options=[{}], link_options=[{}])".format(
+            r('-DC7V=' + v['P7v']), r('-Wl,--l9v=' + v['P9v'])),
+        "gram = generated_source(file='gram.y', options=[{}])".format(
+            r('-DY17=' + v['P17y'])),
         "vprog2 = executable('prog2', ['main2.c'], compile_options={}, "
         "link_options={})".format(
             r(strquote('-DC8A=' + v['P8a']) + ' ' +
@@ -166,7 +193,7 @@ def render(src, v, shape):
         "command('p14', cmd=['rec', 'P14', command.input], files=[{}])"
         .format(r(v['P14f'] + '.in')),
         "install(executable('iprog', ['main2.c']))",
-        "default(vprog, vprog2)",
+        "default(vprog, vprog2, vshl, gram)",
         "test(['rec', 'P5', {}], environment={{'VFENV4': {}}})".format(
             r(v['P5w']), r(v['P5e'])),
         "drv = test_driver(['drv', 'P6', {}], environment={{'VFENV5': {}}}, "
@@ -177,7 +204,7 @@ def render(src, v, shape):
         "test([{}], driver=drv)".format(r(v['P6c2'])),
     ]
     sandbox.write_file(os.path.join(src, 'build.bfg'), '\n'.join(lines) + '\n')
-    for f in ('main.c', 'main2.c', 'lib.c', 'shl.c'):
+    for f in ('main.c', 'main2.c', 'lib.c', 'shl.c', 'vshl.c', 'gram.y'):
         sandbox.write_file(os.path.join(src, f), 'int x;\n')
     os.makedirs(os.path.join(src, v['P13i']), exist_ok=True)
     os.makedirs(os.path.join(src, v['P13l']), exist_ok=True)
@@ -186,7 +213,8 @@ def render(src, v, shape):
 
 def configure_env(v):
     return {
-        'CC': 'cc',
+        'CC': 'cc', 'YACC': 'yacc',
+        'YFLAGS': strquote('-DE15Y=' + v['P15y']),
         'CFLAGS': strquote('-DE15C=' + v['P15c']),
         'CPPFLAGS': strquote('-DE15P=' + v['P15p']),
         'LDFLAGS': strquote('-Wl,--e15l=' + v['P15l']),
@@ -281,12 +309,12 @@ def baseline(backend, shape):
                     seen.update(placeholders_in(a))
                 for val in inv['env'].values():
                     seen.update(placeholders_in(val))
-        missing = [p for p in BASELINE_VALUES if p not in seen]
-        if missing:
-            raise HarnessError('placeholders never observed in the baseline '
-                               'run: {}'.format(missing))
         _baseline_cache[key] = logs
+        _baseline_missing[key] = [p for p in BASELINE_VALUES if p not in seen]
     return _baseline_cache[key]
+
+
+_baseline_missing = {}
 
 
 def specials(s, backend):
@@ -423,10 +451,13 @@ def literal_model_check(values, logs):
 
 
 # which option positions belong to which compile/link step (by output)
-GLOBAL_COMPILE = {'P10a', 'P10s', 'P15c', 'P15p'}
+GLOBAL_COMPILE = {'P10a', 'P10s', 'P10x', 'P15c', 'P15p'}
 GLOBAL_LINK = {'P11a', 'P11s', 'P15l', 'P15b'}
 OWNERS = {
-    'prog.int/main.o': GLOBAL_COMPILE | {'P7a', 'P7b', 'P12v', 'P13i'},
+    'prog.int/main.o': GLOBAL_COMPILE | {'P7a', 'P7b', 'P7x', 'P12v', 'P13i'},
+    'libvshl.int/vshl.o': GLOBAL_COMPILE | {'P7v'},
+    'libvshl.so.1.2.3': GLOBAL_LINK | {'P9v'},
+    './gram.tab.c': {'P15y', 'P17g', 'P17y'},
     'prog2.int/main2.o': GLOBAL_COMPILE | {'P8a', 'P8b'},
     'libslib.int/lib.o': GLOBAL_COMPILE,
     'libshl.int/shl.o': GLOBAL_COMPILE,
@@ -439,7 +470,14 @@ OWNERS = {
 
 
 LINK_LIBS = {'prog': {'./libslib.a', './libshl.so'}, 'prog2': set(),
-             'libshl.so': set(), 'iprog': set()}
+             'libshl.so': set(), 'iprog': set(), 'libvshl.so.1.2.3': set()}
+# literal option words the script gives to a step, with multiplicity (the
+# same word may be given globally and per target: both must arrive)
+WORDS = {out: {'-Xpreprocessor': 1} for out in
+         ('prog2.int/main2.o', 'libslib.int/lib.o', 'libshl.int/shl.o',
+          'iprog.int/main2.o', 'libvshl.int/vshl.o')}
+WORDS['prog.int/main.o'] = {'-Xpreprocessor': 2}
+WORDS['./gram.tab.c'] = {'--defines=gram.tab.h': 1}
 
 
 def ownership_violation(backend, shape):
@@ -447,10 +485,15 @@ def ownership_violation(backend, shape):
     exactly the options the script gave to it (its own plus the global ones),
     in particular nothing inherited from another target."""
     logs = baseline(backend, shape)
+    missing = _baseline_missing[(backend, json.dumps(shape, sort_keys=True))]
+    if missing:
+        return ('the script gives arguments in positions {} but they reached '
+                'no process at all'.format(
+                    ['{} ({})'.format(p, POS[p][1]) for p in missing]))
     seen_outputs = set()
     for t in ('prog', 'all'):
         for inv in logs[t]:
-            if inv['tool'] != 'cc' or '-o' not in inv['argv']:
+            if inv['tool'] not in ('cc', 'yacc') or '-o' not in inv['argv']:
                 continue
             out = inv['argv'][inv['argv'].index('-o') + 1]
             seen_outputs.add(out)
@@ -465,6 +508,12 @@ def ownership_violation(backend, shape):
                             '{} but the script gives it {} (argv {!r})'
                             .format(out, sorted(libs),
                                     sorted(LINK_LIBS[out]), inv['argv']))
+            for w, n in WORDS.get(out, {}).items():
+                if inv['argv'].count(w) != n:
+                    return ('step producing {!r} received the word {!r} {} '
+                            'time(s) but the script gives it {} time(s) '
+                            '(globally and/or per target) (argv {!r})'.format(
+                                out, w, inv['argv'].count(w), n, inv['argv']))
             have = {p for a in inv['argv'] for p in placeholders_in(a)}
             if have != OWNERS[out]:
                 return ('step producing {!r} received the options of '
@@ -612,6 +661,8 @@ def make_prop(rec, backend):
 
 
 def replay_case(backend, case, rec):
+    # replay files written before a position was added lack its value
+    case = dict(case, values=dict(BASELINE_VALUES, **case['values']))
     own = ownership_violation(backend, case['shape'])
     if own:
         raise Violation(backend + '/option-ownership', own, case)
